@@ -15,9 +15,11 @@ import (
 	"os/exec"
 	"path/filepath"
 	"regexp"
+	"runtime"
 	"sort"
 	"strconv"
 	"strings"
+	"sync"
 	"time"
 
 	"csverif/internal/prng"
@@ -192,29 +194,87 @@ func (c *Ctx) Violate(v Violation) {
 
 func ModelBin() string { return filepath.Join(VerifDir, "lean/.lake/build/bin/csmodel") }
 
-// AskModel runs the compiled Lean model on the request lines.
+// AskModel runs the compiled Lean model on the request lines. Every line is an independent request, so
+// the lines are dealt out to several model processes (by size, longest first) and the replies put back in order.
 func AskModel(reqs []string) ([]string, error) {
-	var in bytes.Buffer
-	for _, r := range reqs {
-		in.WriteString(r)
-		in.WriteByte('\n')
+	if f := os.Getenv("VERIF_DUMP_MODEL"); f != "" { // development aid: keep the request lines
+		if fh, err := os.OpenFile(f, os.O_APPEND|os.O_CREATE|os.O_WRONLY, 0o644); err == nil {
+			for _, r := range reqs {
+				fmt.Fprintln(fh, r)
+			}
+			fh.Close()
+		}
 	}
-	cmd := exec.Command(ModelBin())
-	cmd.Stdin = &in
-	var out bytes.Buffer
-	cmd.Stdout = &out
-	cmd.Stderr = os.Stderr
-	if err := cmd.Run(); err != nil {
-		return nil, fmt.Errorf("csmodel: %w", err)
+	workers := runtime.NumCPU() - 2
+	if workers > 12 {
+		workers = 12
 	}
-	var res []string
-	sc := bufio.NewScanner(&out)
-	sc.Buffer(make([]byte, 1<<20), 1<<28)
-	for sc.Scan() {
-		res = append(res, sc.Text())
+	if workers < 1 || len(reqs) < 64 {
+		workers = 1
 	}
-	if len(res) != len(reqs) {
-		return res, fmt.Errorf("csmodel: %d replies for %d requests", len(res), len(reqs))
+	// longest-processing-time-first assignment on the request length
+	idx := make([]int, len(reqs))
+	for i := range idx {
+		idx[i] = i
+	}
+	sort.SliceStable(idx, func(a, b int) bool { return len(reqs[idx[a]]) > len(reqs[idx[b]]) })
+	load := make([]int, workers)
+	shard := make([][]int, workers)
+	for _, i := range idx {
+		w := 0
+		for k := 1; k < workers; k++ {
+			if load[k] < load[w] {
+				w = k
+			}
+		}
+		shard[w] = append(shard[w], i)
+		// long requests cost more than proportionally (list-based model)
+		load[w] += len(reqs[i]) + len(reqs[i])*len(reqs[i])/4096 + 64
+	}
+	res := make([]string, len(reqs))
+	errs := make([]error, workers)
+	var wg sync.WaitGroup
+	for w := 0; w < workers; w++ {
+		if len(shard[w]) == 0 {
+			continue
+		}
+		wg.Add(1)
+		go func(w int) {
+			defer wg.Done()
+			sort.Ints(shard[w])
+			var in bytes.Buffer
+			for _, i := range shard[w] {
+				in.WriteString(reqs[i])
+				in.WriteByte('\n')
+			}
+			cmd := exec.Command(ModelBin())
+			cmd.Stdin = &in
+			var out bytes.Buffer
+			cmd.Stdout = &out
+			cmd.Stderr = os.Stderr
+			if err := cmd.Run(); err != nil {
+				errs[w] = fmt.Errorf("csmodel: %w", err)
+				return
+			}
+			sc := bufio.NewScanner(&out)
+			sc.Buffer(make([]byte, 1<<20), 1<<28)
+			n := 0
+			for sc.Scan() {
+				if n < len(shard[w]) {
+					res[shard[w][n]] = sc.Text()
+				}
+				n++
+			}
+			if n != len(shard[w]) {
+				errs[w] = fmt.Errorf("csmodel: %d replies for %d requests", n, len(shard[w]))
+			}
+		}(w)
+	}
+	wg.Wait()
+	for _, e := range errs {
+		if e != nil {
+			return res, e
+		}
 	}
 	return res, nil
 }
